@@ -43,6 +43,9 @@ type ctlGen struct {
 	prof   map[string]int
 	peers  []int
 	forced *event // the next event, decided by the previous one
+	alt    bool   // peers 11..13 (second PFCP entity on the host of peers 1..3) are bound
+	queue  []*event // events still to come, decided earlier (before `forced`)
+	maxRetrans int
 }
 
 type outSRR struct {
@@ -54,16 +57,16 @@ type outSRR struct {
 var profiles = map[string]map[string]int{
 	// weights of event kinds
 	"mix": {"assoc": 6, "est": 14, "mod": 26, "del": 6, "hb": 3, "dup": 6, "collide": 3, "other": 2, "report": 12,
-		"srrsp": 8, "orsp": 2, "junk": 2, "tmotx": 5, "tmorx": 4, "takeover": 2},
+		"srrsp": 8, "orsp": 2, "junk": 2, "tmotx": 5, "tmorx": 4, "takeover": 2, "abandon": 2},
 	// transactions: duplicates, expiries, responses
 	"trans": {"assoc": 5, "est": 8, "mod": 8, "del": 3, "hb": 8, "dup": 18, "collide": 8, "other": 4, "report": 12,
-		"srrsp": 12, "orsp": 4, "junk": 1, "tmotx": 12, "tmorx": 12, "takeover": 0},
+		"srrsp": 12, "orsp": 4, "junk": 1, "tmotx": 12, "tmorx": 12, "takeover": 0, "abandon": 4},
 	// usage reporting inside one or two sessions
 	"urr": {"assoc": 2, "est": 6, "mod": 45, "del": 5, "hb": 1, "dup": 2, "collide": 0, "other": 0, "report": 25,
-		"srrsp": 6, "orsp": 0, "junk": 0, "tmotx": 2, "tmorx": 1, "takeover": 0},
+		"srrsp": 6, "orsp": 0, "junk": 0, "tmotx": 2, "tmorx": 1, "takeover": 0, "abandon": 5},
 	// several nodes, coinciding ids, re-association, takeover, SEID-0 responses
 	"nodes": {"assoc": 14, "est": 20, "mod": 14, "del": 8, "hb": 1, "dup": 2, "collide": 1, "other": 1, "report": 14,
-		"srrsp": 14, "orsp": 1, "junk": 1, "tmotx": 2, "tmorx": 2, "takeover": 6},
+		"srrsp": 14, "orsp": 1, "junk": 1, "tmotx": 2, "tmorx": 2, "takeover": 6, "abandon": 1},
 }
 
 func (g *ctlGen) pickKind() string {
@@ -216,6 +219,11 @@ func (g *ctlGen) anySeid() uint64 {
 
 func (g *ctlGen) gen() *event {
 	r := g.r
+	if len(g.queue) > 0 {
+		ev := g.queue[0]
+		g.queue = g.queue[1:]
+		return ev
+	}
 	if g.forced != nil {
 		ev := g.forced
 		g.forced = nil
@@ -223,6 +231,38 @@ func (g *ctlGen) gen() *event {
 	}
 	ev := &event{typ: "recv", lists: map[string][]rule{}}
 	k := g.pickKind()
+	if k == "abandon" {
+		// an outstanding Session Report Request runs out of retries (every expiry in a row), then the same session reports
+		// again: numbering, ownership and bookkeeping go on as if the lost request had been delivered
+		if len(g.outst) == 0 {
+			k = "report"
+		} else {
+			o := g.outst[r.intn(len(g.outst))]
+			for i := 0; i <= g.maxRetrans; i++ {
+				g.queue = append(g.queue, &event{typ: "tmo", tk: "tx", peer: o.peer, seq: o.seq, lists: map[string][]rule{}})
+			}
+			save := g.prof
+			g.prof = map[string]int{"report": 1}
+			rep := g.gen2()
+			g.prof = save
+			rep.seid = o.seid
+			g.queue = append(g.queue, rep)
+			ev := g.queue[0]
+			g.queue = g.queue[1:]
+			return ev
+		}
+	}
+	return g.genOf(ev, k)
+}
+
+// gen2: one generated event, bypassing the queue (used while the queue is being filled)
+func (g *ctlGen) gen2() *event {
+	ev := &event{typ: "recv", lists: map[string][]rule{}}
+	return g.genOf(ev, g.pickKind())
+}
+
+func (g *ctlGen) genOf(ev *event, k string) *event {
+	r := g.r
 	switch k {
 	case "hb":
 		ev.peer, ev.kind = g.peer(), "hb"
@@ -304,6 +344,14 @@ func (g *ctlGen) gen() *event {
 		// a different request with the sequence number of an earlier one: from the same peer (treated as
 		// a retransmission by the UPF) or from another peer (must not be)
 		old := g.sent[len(g.sent)-1-r.intn(min(len(g.sent), 6))]
+		if g.alt && old.peer < 10 && r.chance(25) {
+			// … or from another PFCP entity on the SAME host (same IP address, another UDP port): a transaction is the
+			// sender's address — IP and port — and sequence number; this is a first copy and is answered at its own port
+			ev = g.genKind("hb")
+			ev.seq = old.seq
+			ev.peer = old.peer + 10
+			return ev
+		}
 		ev = g.genKind(r.pick("hb", "est", "mod", "del", "assoc"))
 		ev.seq = old.seq
 		if r.chance(50) {
@@ -517,7 +565,7 @@ func runCtl(c *ctx) {
 	}
 	netn += shard
 	peers := []int{1, 2, 3}
-	e := newCtlEnv(c, netn, append(append([]int{}, peers...), 9))
+	e := newCtlEnv(c, netn, append(append([]int{}, peers...), 9, 11, 12, 13))
 	// the corpus of the profile (minimised past failures, witnesses of known findings) runs first, on shard 0
 	if am["corpus"] != "" && shard == 0 {
 		if f, err := os.Open(am["corpus"]); err == nil {
@@ -536,7 +584,7 @@ func runCtl(c *ctx) {
 		dpseed := r.u64() >> 1
 		c.emit("C %d maxretrans=%d txseq=%x faultpct=%d dpseed=%d profile=%s", cn, maxRetrans, txSeq, faultPct, dpseed, profName)
 		e.startServer(uint8(maxRetrans), txSeq, dpseed, faultPct)
-		g := &ctlGen{e: e, r: r, c: c, seq: map[int]uint32{}, prof: profiles[profName], peers: peers}
+		g := &ctlGen{e: e, r: r, c: c, seq: map[int]uint32{}, prof: profiles[profName], peers: peers, alt: true, maxRetrans: maxRetrans}
 		if g.prof == nil {
 			g.prof = profiles["mix"]
 		}
@@ -574,7 +622,7 @@ func runCtlReplay(c *ctx) {
 		os.Exit(2)
 	}
 	defer f.Close()
-	e := newCtlEnv(c, netn, []int{1, 2, 3, 9})
+	e := newCtlEnv(c, netn, []int{1, 2, 3, 9, 11, 12, 13})
 	replayCases(c, e, f)
 }
 
